@@ -87,8 +87,8 @@ Var Xdl::read(const String& file)
 	buffer.resize(asl_verif_knob("xdl.read_chunk", buffer.length() - 1) + 1);
 #endif
 	byte bom[3];
-	if(tfile.read(bom, 3) == 3 && !(bom[0] == 0xef && bom[1] == 0xbb && bom[2] == 0xbf))
-		tfile.seek(0);
+	if(!(tfile.read(bom, 3) == 3 && bom[0] == 0xef && bom[1] == 0xbb && bom[2] == 0xbf))
+		tfile.seek(0); // no BOM (or a file shorter than one): nothing to skip
 	while (1)
 	{
 		int n = tfile.read(buffer.data(), buffer.length() - 1);
